@@ -21,7 +21,7 @@ var c01Pow10 = [...]int64{1, 10, 100, 1000, 10000, 100000, 1000000, 10000000, 10
 
 // c01RHA: n/d rounded half away from zero (d > 0), integers only.
 func c01RHA(n, d int64) int64 {
-	an := vrt.IteInt64(n < 0, -n, n)
+	an := vrt.Abs64(n)
 	q := vrt.DivFloor(vrt.DivFloor(2*an, d)+1, 2)
 	return vrt.IteInt64(n < 0, -q, q)
 }
